@@ -14,7 +14,7 @@ class Prop(PropBase):
             'oracle: rings of one block are ranks of the vertical angles in force (first accepted table); non-trivial = scenario with >= 2 DIFOP packets and a cloud/open frame')
     explanation = 'C09_T0..T6 (Coq: gate, all-or-nothing load, latch, ring = rank with order/bounds, MEMS never wait, DIFOP-governed rps/FOV state) + correspondence'
     assumptions = []
-    projection = {'kinds': {'cloud', 'p', 'open', 'err', 'crash', 'nodrv'}, 'ignore_xyz': True, 'ignore_buf': True}
+    projection = {'kinds': {'cloud', 'p', 'open', 'err', 'crash', 'nodrv'}, 'ignore_xyz': True, 'ignore_buf': True, 'err_codes': {'65'}}
 
     def kernel_class(self, k):
         v = int(k.split()[2])
